@@ -2,8 +2,8 @@ package rules
 
 func init() {
 	reg("C08", &PropSpec{
-		Rules:       []Rule{r("I1", RuleI1), r("E3i", RuleE3i), r("T1", RuleT1), r("B2", RuleB2), r("N1", RuleN1), r("U1", RuleU1), r("K2p", RuleK2p), r("PF1", RulePF1), r("FF1", RuleFF1), r("IX1", RuleIX1), r("JS1", RuleJS1), r("IT1", RuleIT1)},
-		Explanation: "Confinement by construction: the only file-system calls are os.Stat/os.ReadFile behind INCLUDE (and the reader of the caller-supplied root path); the path is Join(Dir(current file), p) where p is the very value the name validator accepted, its error returning before the Join, and ReadFile gets the path Stat accepted (I1). Include cycles are refused because the scanner stack grows only for files not already on it (T1 include worklist); a banned INCLUDE touches no file (B2); extra INCLUDE parameters and empty included files are diagnostics, not crashes (N1, U1). Not decided: that the validator rejects exactly the bad names (a for-all-strings property of a pure string function); equivalence with textual inclusion. INCLUDE is visible to the description look-ahead (K2p); every inclusion gets a fresh file object on every value path (FF1); include stack and hashes in lockstep (PF1); the name validator never indexes an emptied value (IX1). The name the validator judges is the INCLUDE parameter as written (I1 validated-as-written); a Push that reports success has appended to every parallel slice (PF1 success-means-grown). JSIGHT-in-an-included-file is decided by the scanner stack itself (JS1); the include chain records the INCLUDE keyword's position (IT1).",
+		Rules:       []Rule{r("I1", RuleI1), r("E3i", RuleE3i), r("T1", RuleT1), r("B2", RuleB2), r("N1", RuleN1), r("U1", RuleU1), r("K2p", RuleK2p), r("PF1", RulePF1), r("FF1", RuleFF1), r("IX1", RuleIX1), r("JS1", RuleJS1), r("IT1", RuleIT1), r("EC1", RuleEC1)},
+		Explanation: "Confinement by construction: the only file-system calls are os.Stat/os.ReadFile behind INCLUDE (and the reader of the caller-supplied root path); the path is Join(Dir(current file), p) where p is the very value the name validator accepted, its error returning before the Join, and ReadFile gets the path Stat accepted (I1). Include cycles are refused because the scanner stack grows only for files not already on it (T1 include worklist); a banned INCLUDE touches no file (B2); extra INCLUDE parameters and empty included files are diagnostics, not crashes (N1, U1). Not decided: that the validator rejects exactly the bad names (a for-all-strings property of a pure string function); equivalence with textual inclusion. INCLUDE is visible to the description look-ahead (K2p); every inclusion gets a fresh file object on every value path (FF1); include stack and hashes in lockstep (PF1); the name validator never indexes an emptied value (IX1). The name the validator judges is the INCLUDE parameter as written (I1 validated-as-written); a Push that reports success has appended to every parallel slice (PF1 success-means-grown). JSIGHT-in-an-included-file is decided by the scanner stack itself (JS1); the include chain records the INCLUDE keyword's position (IT1). An INCLUDE equals its text written in place also inside parentheses: the unclosed-context verdict belongs to the end of the root file (EC1: known finding F17).",
 		Trusted:     trustedCommon,
 	})
 }
